@@ -53,7 +53,7 @@ from twisted.cred import checkers, credentials, portal
 from twisted.internet import address, error, interfaces, task
 from twisted.internet.testing import StringTransport
 from twisted.protocols import ftp
-from twisted.python import failure, filepath
+from twisted.python import failure, filepath, log
 from zope.interface import implementer
 
 # ----------------------------------------------------------------------------------------------------------
@@ -492,6 +492,14 @@ class _Session:
         return list(getattr(self.pi, "workingDirectory", []) or [])
 
 
+class _NullSink:
+    def write(self, text):
+        pass
+
+    def flush(self):
+        pass
+
+
 def run_session(user, commands):
     """Play `commands` (pairs verb, argument-or-None) as `user`; returns a failure text or None."""
     from twisted.internet import reactor
@@ -504,6 +512,9 @@ def run_session(user, commands):
     had = "callLater" in vars(reactor)
     old = vars(reactor).get("callLater")
     reactor.callLater = clock.callLater  # lineReceived and DTPFactory schedule on the global reactor
+    stderr_observer = getattr(log, "defaultObserver", None)  # prints every logged failure to stderr
+    if stderr_observer is not None:
+        stderr_observer.stderr = _NullSink()
     _AUDIT["events"] = []
     session = None
     try:
@@ -523,6 +534,8 @@ def run_session(user, commands):
             reactor.callLater = old
         else:
             del reactor.callLater
+        if stderr_observer is not None:
+            del stderr_observer.stderr
         for call in clock.getDelayedCalls():
             call.cancel()
     events, _AUDIT["events"] = _AUDIT["events"], []
